@@ -148,7 +148,8 @@ func checkC11(c *Ctx) {
 		}
 		nonEmpty := func(e ast.Expr) (bool, bool) {
 			be, ok := e.(*ast.BinaryExpr)
-			if !ok || (be.Op.String() != "!=" && be.Op.String() != "==") || identObj(info, be.X) != q {
+			// the condition may name the variable or (looked through) the consult call itself
+			if !ok || (be.Op.String() != "!=" && be.Op.String() != "==") || (identObj(info, be.X) != q && ast.Unparen(be.X) != ast.Expr(call)) {
 				return false, false
 			}
 			if v, ok := constString(info, be.Y); !ok || v != "" {
